@@ -119,6 +119,9 @@ def parse_duration(s):
 def parse_date(s):
     # return seconds-since-epoch for the UTC midnight that starts the given
     # day
+    if not re.fullmatch(r"\d{4}-\d{2}-\d{2}", s):
+        raise ValueError(s, "not a date of the form YYYY-MM-DD")
+    datetime.date(int(s[0:4]), int(s[5:7]), int(s[8:10]))  # ValueError for a day that does not exist
     return int(iso_utc_time_to_seconds(s + "T00:00:00"))
 
 def format_delta(time_1, time_2):
